@@ -334,6 +334,64 @@ var tokenAlphabet = []string{
 	"/*", "//", "\n", "\xff", "\x00",
 }
 
+// valid statements / expressions / queries (tokens separated by one space) for
+// the token-level mutations of part (2b)
+var mutTemplates = []string{
+	"a , b = f ( )",
+	"a , b , c = f ( x , y )",
+	"x = a ? b : c",
+	"x = a . b [ 1 .. 2 ]",
+	"x [ 0 ] = y . z ( a : 1 , b : )",
+	"f ( @ args )",
+	"f ( x , : y , z : 3 )",
+	"x = function ( a , b = 1 , @ c ) { return a }",
+	"b = { | x , y | x + y }",
+	"if a is b { x = 1 } else { x = 2 }",
+	"switch x { case 1 , 2 : y = 1 case 3 : y = 2 default : y = 3 }",
+	"try f ( ) catch ( e , \"p\" ) g ( e )",
+	"for x in y { continue }",
+	"for i , x in y { break }",
+	"for ( i = 0 ; i < 9 ; ++ i ) f ( i )",
+	"for i in 0 .. 9 { }",
+	"forever { break }",
+	"do x ++ while x < 9",
+	"while x -- > 0 { }",
+	"return a , b",
+	"return",
+	"throw \"x\" $ y",
+	"x $= y ; x += 1 ; x <<= 2",
+	"x = a in ( 1 , 2 ) or b not in ( 3 )",
+	"x = not a and b isnt c",
+	"x = # ( 1 , a : 2 , ( 3 ) )",
+	"x = # { a : 1 , b : }",
+	"x = # 20200101.1234",
+	"x = class : X { F ( a ) { . f = a } G : 1 }",
+	"x = new X ( 1 )",
+	"super . F ( x )",
+	"x = . a . b ( ) . c",
+	"x = X { a : 1 }",
+	"x = a =~ \"b\" ? c : d",
+	"x = - a * ~ b % c",
+	"x = a [ :: 2 ] $ b [ 1 :: ]",
+	"x = function ( ) { } ( )",
+	"x = _y",
+	"x = a is true or b is false",
+	"table where a = 1 and b in ( 2 , 3 )",
+	"table join by ( a ) table2 project a , b",
+	"table extend x = a + 1 , y rename a to z sort reverse z",
+	"table summarize a , total b , max c",
+	"( table union table2 ) minus table3 intersect table4",
+	"table leftjoin table2 times table3",
+	"table where a =~ \"x\" remove b",
+	"insert { a : 1 } into table",
+	"update table set a = 1",
+	"delete table where a is 1",
+}
+
+var mutTokens = []string{
+	"(", ")", "[", "]", "{", "}", ",", ".", "..", ":", "::", ";", "=", "?", "|", "@", "#", "-", "1", "\"s\"", "x", "X", "in", "function", "class", "\n",
+}
+
 // core alphabet for the longest token strings
 var coreAlphabet = []string{
 	"(", ")", "[", "]", "{", "}", `"`, "'", "#", ".", "..", "?", ":", "::", ";", ",", "=", "-",
@@ -504,6 +562,61 @@ func (r *runner) work() {
 	}
 	c.Set("token_strings", fmt.Sprintf("all of length<=%d over %d symbols, length %d over %d core symbols",
 		fullLen, len(tokenAlphabet), fullLen+1, len(coreAlphabet)))
+	// (2b) token-level mutations of valid statements and expressions: every
+	// single deletion, replacement and insertion (thorough: also every pair of
+	// replacements) with a 26 token alphabet - inputs that are one slip away from
+	// valid code reach the parser's deeper paths (multiple assignment, switch,
+	// try, for-in, class members, ranges, named arguments, query operators) that
+	// short token strings cannot
+	nmut := 0
+	for _, t := range mutTemplates {
+		toks := strings.Split(t, " ")
+		item++
+		if mine(item) {
+			r.one(strings.Join(toks, " "))
+		}
+		emit := func(v []string) {
+			item++
+			if !mine(item) || c.Expired() {
+				return
+			}
+			nmut++
+			r.one(strings.Join(v, " "))
+		}
+		for i := range toks {
+			emit(append(append([]string{}, toks[:i]...), toks[i+1:]...))
+			for _, m := range mutTokens {
+				if m != toks[i] {
+					v := append([]string{}, toks...)
+					v[i] = m
+					emit(v)
+				}
+			}
+		}
+		for i := 0; i <= len(toks); i++ {
+			for _, m := range mutTokens {
+				v := append(append(append([]string{}, toks[:i]...), m), toks[i:]...)
+				emit(v)
+			}
+		}
+		if !c.Quick() {
+			for i := range toks {
+				for j := i + 1; j < len(toks); j++ {
+					for _, m := range mutTokens {
+						for _, m2 := range mutTokens {
+							v := append([]string{}, toks...)
+							v[i], v[j] = m, m2
+							emit(v)
+						}
+					}
+				}
+			}
+		}
+		if c.Expired() {
+			return
+		}
+	}
+	c.Set("statement_mutations", fmt.Sprintf("%d templates, %d mutation tokens", len(mutTemplates), len(mutTokens)))
 	// (3) stdlib files: every prefix and every single-byte deletion
 	files := stdlibFiles(40)
 	c.Set("stdlib_files", len(files))
